@@ -9,11 +9,16 @@ def _sc():
 
 
 def quarter_changes(part):
+    """the divisions in force, as (time, divisions) pairs.  A generator that knows what an edit history MEANS records it on the part
+    (`_verif_intended_quarter_changes`); then the oracle follows the meaning, not the part's own table"""
+    intended = getattr(part, "_verif_intended_quarter_changes", None)
+    if intended is not None:
+        return [(int(t), int(q)) for t, q in intended]
     return list(zip([int(t) for t in part._quarter_times], [int(q) for q in part._quarter_durations]))
 
 
 def q_in_force(part, t):
-    v = part._quarter_durations[0]
+    v = quarter_changes(part)[0][1]
     for tq, dq in quarter_changes(part):
         if tq <= t:
             v = dq
